@@ -250,11 +250,43 @@ class C05(PropertyCheck):
                     ojobs.append({'id': f'o{oi}c{ci}{op}', 'src': PRELUDE + '\n'.join(decls) + f'\nfn c0() -> str {{ to_str({op}({ARG_EXPR[args[0]]}, {ARG_EXPR[args[1]]})) }}', 'calls': ['c0']})
                     oterms.append(f'obs_resolve [{"; ".join(o2.coq() for o2 in ovs)}] [] {clist(args)}')
                     ometa.append({'operator': op, 'arguments': [x.show() for x in args], 'overloads': decls})
+        # ---------- family 4: container equality / inequality are dynamic functions that look up eq for the ELEMENT types (t0, t1)
+        ejobs, eterms, emeta = [], [], []
+        etypes = [comp('Z'), INT, STR, comp('P', INT, STR), gen('T')]
+        evals_ = {comp('Z'): 'Z(1)', INT: '1', STR: '"s"', comp('P', INT, STR): 'P(1, "s")'}
+        for ei in range(25 if tier == 'quick' else 250):
+            n = rng.choice([1, 2, 2, 3])
+            ovs, sigs = [], set()
+            while len(ovs) < n:
+                params = [rng.choice(etypes), rng.choice(etypes)]
+                if all(p_.kind == 'prim' for p_ in params) or tuple(p_.key() for p_ in params) in sigs:
+                    continue
+                sigs.add(tuple(p_.key() for p_ in params))
+                ovs.append(Ov(len(ovs) + 1, params, 2, 0))
+            decls = []
+            for o in ovs:
+                gs = o.gens()
+                decls.append('fn eq' + (f'<{", ".join(gs)}>' if gs else '') + f'(p0: {o.params[0].xr()}, p1: {o.params[1].xr()}) -> bool {{ let d = display("#tag{o.tag}#"); true }}')
+            for ci in range(3):
+                o = rng.choice(ovs)
+                a = [rng.choice([x for x in evals_ if (p_.kind == 'gen' or x == p_)] or list(evals_)) for p_ in o.params]
+                if rng.random() < 0.3:
+                    a[rng.randrange(2)] = rng.choice(list(evals_))
+                if all(x.kind == 'prim' for x in a):
+                    continue
+                forms = [('seq-eq', f'[{evals_[a[0]]}] == [{evals_[a[1]]}]'), ('seq-ne', f'[{evals_[a[0]]}] != [{evals_[a[1]]}]'),
+                         ('opt-eq', f'some({evals_[a[0]]}) == some({evals_[a[1]]})'), ('tuple-eq', f'({evals_[a[0]]}, 1) == ({evals_[a[1]]}, 1)')]
+                wrap = {'seq-eq': lambda x: nat('Sequence', x), 'seq-ne': lambda x: nat('Sequence', x), 'opt-eq': lambda x: nat('Optional', x), 'tuple-eq': lambda x: tup(x, INT)}
+                for fname, ex in forms:
+                    ejobs.append({'id': f'e{ei}c{ci}{fname}', 'src': PRELUDE + '\n'.join(decls) + f'\nfn c0() -> str {{ to_str({ex}) }}', 'calls': ['c0']})
+                    eterms.append(f'obs_resolve [{"; ".join(o2.coq() for o2 in ovs)}] [] {clist(a)}')
+                    emeta.append({'form': fname, 'element_types': [x.show() for x in a], 'overloads': decls,
+                                  'outer': (f'obs_resolve [{"; ".join(o2.coq() for o2 in ovs)}] [(100, DYN)] {clist([wrap[fname](a[0]), wrap[fname](a[1])])}')})
         # self-check of the library table
         table_jobs = []
         for a in ARG_POOL:
             table_jobs.append({'id': 'lib' + a.show(), 'src': PRELUDE + f'fn c0() -> str {{ to_str({ARG_EXPR[a]}) }}', 'calls': ['c0']})
-        res = core.run_harness(ctx['binary'], jobs + table_jobs + fjobs + ojobs, os.path.join(workdir, 'h'), timeout=600)
+        res = core.run_harness(ctx['binary'], jobs + table_jobs + fjobs + ojobs + ejobs, os.path.join(workdir, 'h'), timeout=600)
         for a in ARG_POOL:
             r = res['lib' + a.show()]
             has = r.get('compile') == 'ok'
@@ -320,6 +352,29 @@ class C05(PropertyCheck):
                                    'case': {'src': job['src'], **mt}, 'impl': got if c == 'ok' else c, 'model': m})
             else:
                 distinct.add(('op', job['id']))
+        emodel_inner = core.coq_eval(eterms, self.imports, os.path.join(workdir, 'coqe'), shard_size=300, timeout=600)
+        # the outer call: user overloads on the container types (a generic eq<T>(T, T) matches them too) before the dynamic library function,
+        # which matches when the inner lookup finds a single best overload (for tuples the second component is int: the builtin)
+        outer_terms = [mt.pop('outer').replace('DYN', 'true' if mi.startswith('chosen') else 'false') for mi, mt in zip(emodel_inner, emeta)]
+        emodel_outer = core.coq_eval(outer_terms, self.imports, os.path.join(workdir, 'coqe2'), shard_size=300, timeout=600)
+        emodel = [(mi if mo == 'chosen:100' else mo) for mi, mo in zip(emodel_inner, emodel_outer)]
+        for job, m, mt in zip(ejobs, emodel, emeta):
+            r = res.get(job['id'])
+            n_eval += 1
+            c = r.get('compile')
+            outs = [str(r.get('inst'))] + [str(x) for x in (r.get('calls') or [])]
+            if any(o.startswith(('P:', 'panic')) for o in outs):
+                violations.append({'what': f'{mt["form"]}: the dynamic container comparison crashed the interpreter: it ran an eq overload that does not accept the element types',
+                                   'case': {'src': job['src'], **mt}, 'impl': outs, 'model': m})
+                continue
+            tags = re.findall(r'#tag(\d+)#', r.get('stdout', '') or '')
+            got = ('chosen:' + tags[0]) if c == 'ok' and tags else ('rejected' if c != 'ok' else 'ran-no-user-overload')
+            want = m if m.startswith('chosen') else 'rejected'
+            if got != want:
+                violations.append({'what': f'{mt["form"]}: the dynamic container comparison does not use the unique best eq overload for its element types (inner lookup of overloads)',
+                                   'case': {'src': job['src'], **mt}, 'impl': got if c == 'ok' else c[:300], 'model': m})
+            else:
+                distinct.add(('eq', job['id']))
         outcomes = {}
         for m in model:
             outcomes[m.split(':')[0]] = outcomes.get(m.split(':')[0], 0) + 1
